@@ -429,7 +429,7 @@ theorem stepE_G1_easy {r : Fin n} {s s' : St n} (h : G1 r s) (e : Ev n) (hne : e
   case eSearchEnd =>
     split at hs
     · rename_i hg; cases hs
-      exact h.frame_root .ewait rfl rfl rfl rfl rfl rfl rfl rfl hg.1 rfl (by rw [hg.2]; simp [roundPc])
+      exact h.frame_root .ewait rfl rfl rfl rfl rfl rfl rfl rfl hg.1 rfl (by rw [hg.2.1]; simp [roundPc])
     · cases hs
   case eQuitSend =>
     split at hs
